@@ -415,6 +415,7 @@ Section NodeInd.
   Hypothesis Haction : forall p, P (NAction p).
   Hypothesis Hif : forall p th el, Forall P th -> Forall P el -> P (NIf p th el).
   Hypothesis Hrange : forall p body el, Forall P body -> Forall P el -> P (NRange p body el).
+  Hypothesis Hwith : forall p body el, Forall P body -> Forall P el -> P (NWith p body el).
   Hypothesis Hother : forall w, P (NOther w).
 
   Fixpoint node_ind' (n : node) : P n :=
@@ -433,23 +434,127 @@ Section NodeInd.
               match l with [] => Forall_nil P | x :: r => Forall_cons x (node_ind' x) (go r) end) body)
           ((fix go (l : list node) : Forall P l :=
               match l with [] => Forall_nil P | x :: r => Forall_cons x (node_ind' x) (go r) end) el)
+    | NWith p body el =>
+        Hwith p body el
+          ((fix go (l : list node) : Forall P l :=
+              match l with [] => Forall_nil P | x :: r => Forall_cons x (node_ind' x) (go r) end) body)
+          ((fix go (l : list node) : Forall P l :=
+              match l with [] => Forall_nil P | x :: r => Forall_cons x (node_ind' x) (go r) end) el)
     | NOther w => Hother w
     end.
 End NodeInd.
 
-Definition node_ok (sch : schema) (facts : list path) (n : node) : Prop :=
-  forall dst dot, check_node sch facts dst n = true -> ok_val sch facts dst dot ->
+(* ---- guards --------------------------------------------------------------------------------- *)
+
+(* a step of a chain whose static path is known is a plain struct field access *)
+Lemma field_path : forall sch facts st f st1 q1 v0 evargs x,
+  ty_field sch facts st f [] = Some st1 -> s_path st1 = Some q1 -> ok_val sch facts st v0 ->
+  field_step sch evargs true v0 f = Ok x ->
+  exists tn fs p0, indirect v0 = Some (VStruct tn fs) /\ assoc f fs = Some x /\ s_path st = Some p0 /\ q1 = p0 ++ [PField f].
+Proof.
+  intros sch facts st f st1 q1 v0 evargs x Hty Hq Hok Hstep.
+  unfold ty_field in Hty.
+  match type of Hty with match ?b with _ => _ end = _ => destruct b as [tn|] eqn:Hb end; [|discriminate].
+  destruct (base_value sch facts st v0 tn Hok Hb) as [u [Hi [Htu [Hwu [Hnu _]]]]].
+  unfold field_step in Hstep. rewrite Hi, Hnu in Hstep.
+  destruct (method_of sch tn f) as [m|] eqn:Hm.
+  - match type of Hty with (if ?b then _ else _) = _ => destruct b end; [|discriminate].
+    inversion Hty; subst st1. discriminate.
+  - destruct (tentry_of sch tn) as [[[fds| |] ms]|] eqn:He; try discriminate.
+    destruct (assoc f fds) as [ft|] eqn:Ha; [|discriminate]. inversion Hty; subst st1. simpl in Hq.
+    destruct (struct_value sch u tn fds ms Htu Hwu He) as [fs [Hu _]]. subst u.
+    destruct (assoc f fs) as [y|] eqn:Hy; [|discriminate]. inversion Hstep; subst y.
+    destruct (s_path st) as [p0|]; [|discriminate]. simpl in Hq. inversion Hq; subst q1.
+    exists tn, fs, p0. auto.
+Qed.
+
+Definition not_nil (v : value) : Prop := match v with VNil _ => False | _ => True end.
+
+Lemma nonnil_here : forall v, not_nil v -> nonnil_at [] v = true.
+Proof. intros v H. destruct v; simpl in *; auto; contradiction. Qed.
+
+(* the value a field chain evaluates to is the one the static path of the chain leads to *)
+Lemma chain_nonnil : forall sch facts dot ch st v0 st' q v,
+  ty_chain sch facts st ch [] = Some st' -> s_path st' = Some q -> ok_val sch facts st v0 ->
+  eval_chain sch dot v0 ch [] None = Ok v -> not_nil v ->
+  exists p0, s_path st = Some p0 /\ q = p0 ++ map PField ch /\ nonnil_at (map PField ch) v0 = true.
+Proof.
+  intros sch facts dot. induction ch as [|f r IH]; intros st v0 st' q v Hty Hq Hok Hev Hnn.
+  - simpl in Hty, Hev. inversion Hty; inversion Hev; subst. exists q. rewrite app_nil_r. auto using nonnil_here.
+  - destruct r as [|g r'].
+    + simpl in Hty, Hev.
+      destruct (field_path _ _ _ _ _ _ _ _ _ Hty Hq Hok Hev) as [tn [fs [p0 [Hi [Ha [Hp Hq1]]]]]].
+      exists p0. repeat split; auto. simpl. rewrite Hi, Ha. apply nonnil_here; assumption.
+    + change (ty_chain sch facts st (f :: g :: r') [])
+        with (match ty_field sch facts st f [] with Some st1 => ty_chain sch facts st1 (g :: r') [] | None => None end) in Hty.
+      change (eval_chain sch dot v0 (f :: g :: r') [] None)
+        with (bind (field_step sch no_args true v0 f) (fun x => eval_chain sch dot x (g :: r') [] None)) in Hev.
+      destruct (ty_field sch facts st f []) as [st1|] eqn:Hf; [|discriminate].
+      destruct (field_sound sch facts st v0 f [] st1 no_args true Hf Hok no_args_lit (fun _ => eq_refl)) as [x [Hx Hokx]].
+      rewrite Hx in Hev. simpl in Hev.
+      destruct (IH _ _ _ _ _ Hty Hq Hokx Hev Hnn) as [p1 [Hp1 [Hq1 Hn1]]].
+      destruct (field_path _ _ _ _ _ _ _ _ _ Hf Hp1 Hok Hx) as [tn [fs [p0 [Hi [Ha [Hp Hpp]]]]]].
+      exists p0. split; [assumption|]. split.
+      * rewrite Hq1, Hpp, <- app_assoc. reflexivity.
+      * change (map PField (f :: g :: r')) with (PField f :: map PField (g :: r')).
+        simpl. rewrite Hi, Ha. exact Hn1.
+Qed.
+
+Lemma truth_not_nil : forall v, truth v = Ok true -> not_nil v.
+Proof. intros v H. destruct v; simpl in *; auto. discriminate. Qed.
+
+Lemma sat_more : forall facts q p v, sat facts p v ->
+  (forall r, p ++ r = q -> nonnil_at r v = true) -> sat (q :: facts) p v.
+Proof.
+  intros facts q p v Hs Hq r [Heq|Hin]; [apply Hq; symmetry; assumption|apply Hs; assumption].
+Qed.
+
+(* the guard of an if: in the branch taken when the pipeline is true, the guarded path is a fact *)
+Lemma guard_ok : forall sch facts dst dot p v,
+  ok_val sch facts dst dot -> eval_pipe sch dot p = Ok v -> truth v = Ok true ->
+  ok_val sch (guard_fact sch facts dst p ++ facts) dst dot.
+Proof.
+  intros sch facts dst dot p v Hok Hev Ht. unfold guard_fact.
+  destruct (guard_of p) as [ch|] eqn:Hg; [|exact Hok].
+  destruct (ty_chain sch facts dst ch []) as [st|] eqn:Hty; [|exact Hok].
+  unfold path_fact. destruct (s_path st) as [q|] eqn:Hq; [|exact Hok].
+  destruct p as [|[[] [|]|] [|]]; try discriminate. simpl in Hg. inversion Hg; subst chain. clear Hg.
+  unfold eval_pipe in Hev. simpl in Hev.
+  destruct (eval_chain sch dot dot ch [] None) as [v'|] eqn:Hc; [|discriminate]. simpl in Hev. inversion Hev; subst v'.
+  destruct (chain_nonnil _ _ _ _ _ _ _ _ _ Hty Hq Hok Hc (truth_not_nil _ Ht)) as [p0 [Hp0 [Hqq Hnn]]].
+  destruct Hok as [Hw [Htd Hs]]. repeat split; auto.
+  intros p1 Hp1. rewrite Hp0 in Hp1. inversion Hp1; subst p1. simpl.
+  apply sat_more; [auto|]. intros r Hr. rewrite Hqq in Hr. apply app_inv_head in Hr. subst r. exact Hnn.
+Qed.
+
+(* the guard of a with: the value dot is set to is not empty *)
+Lemma with_ok : forall sch facts st v,
+  ok_val sch facts st v -> truth v = Ok true -> ok_val sch (path_fact st ++ facts) st v.
+Proof.
+  intros sch facts st v [Hw [Ht Hs]] Htr. unfold path_fact.
+  destruct (s_path st) as [q|] eqn:Hq; [|repeat split; auto; intros p Hp; rewrite Hq in Hp; discriminate].
+  repeat split; auto. intros p Hp. rewrite Hq in Hp. inversion Hp; subst p. simpl.
+  apply sat_more; [auto|]. intros r Hr.
+  assert (r = []) as ->.
+  { rewrite <- (app_nil_r q) in Hr at 2. apply app_inv_head in Hr. exact Hr. }
+  apply nonnil_here, truth_not_nil; assumption.
+Qed.
+
+(* ---- nodes --------------------------------------------------------------------------------- *)
+
+Definition node_ok (sch : schema) (n : node) : Prop :=
+  forall facts dst dot, check_node sch facts dst n = true -> ok_val sch facts dst dot ->
   exists out, exec_node sch n dot = Ok out.
 
-Lemma seq_sound : forall sch facts ns, Forall (node_ok sch facts) ns ->
-  forall dst dot, forallb (check_node sch facts dst) ns = true -> ok_val sch facts dst dot ->
+Lemma seq_sound : forall sch ns, Forall (node_ok sch) ns ->
+  forall facts dst dot, forallb (check_node sch facts dst) ns = true -> ok_val sch facts dst dot ->
   exists out, seq_exec (exec_node sch) ns dot = Ok out.
 Proof.
-  induction 1 as [|n r Hn Hr IH]; simpl; intros dst dot Hc Hok.
+  induction 1 as [|n r Hn Hr IH]; simpl; intros facts dst dot Hc Hok.
   - eauto.
   - apply andb_prop in Hc. destruct Hc as [Hc1 Hc2].
-    destruct (Hn dst dot Hc1 Hok) as [o1 Ho1]. rewrite Ho1. simpl.
-    destruct (IH dst dot Hc2 Hok) as [o2 Ho2]. rewrite Ho2. simpl. eauto.
+    destruct (Hn facts dst dot Hc1 Hok) as [o1 Ho1]. rewrite Ho1. simpl.
+    destruct (IH facts dst dot Hc2 Hok) as [o2 Ho2]. rewrite Ho2. simpl. eauto.
 Qed.
 
 Lemma truth_sound : forall sch v t, truth_ok sch t = true -> type_of v = t -> wt sch v = true ->
@@ -470,33 +575,34 @@ Lemma loop_exec_cons : forall f x r,
 Proof. reflexivity. Qed.
 
 Lemma loop_sound : forall sch facts body dst l,
-  Forall (node_ok sch facts) body -> forallb (check_node sch facts dst) body = true ->
+  Forall (node_ok sch) body -> forallb (check_node sch facts dst) body = true ->
   (forall x, In x l -> ok_val sch facts dst x) ->
   exists out, loop_exec (seq_exec (exec_node sch) body) l = Ok out.
 Proof.
   intros sch facts body dst l Hbody Hc. induction l as [|x r IH]; intros Hall; [simpl; eauto|].
   rewrite loop_exec_cons.
-  destruct (seq_sound sch facts body Hbody dst x Hc (Hall x (or_introl eq_refl))) as [o1 Ho1].
+  destruct (seq_sound sch body Hbody facts dst x Hc (Hall x (or_introl eq_refl))) as [o1 Ho1].
   rewrite Ho1. simpl.
   destruct IH as [o2 Ho2]; [intros y Hy; apply Hall; right; assumption|].
   rewrite Ho2. simpl. eauto.
 Qed.
 
-Lemma node_sound : forall sch facts n, node_ok sch facts n.
+Lemma node_sound : forall sch n, node_ok sch n.
 Proof.
-  intros sch facts. apply node_ind'; unfold node_ok.
+  intros sch. apply node_ind'; unfold node_ok.
   - simpl. eauto.
-  - intros p dst dot Hc Hok. simpl in *.
+  - intros p facts dst dot Hc Hok. simpl in *.
     destruct (ty_pipe sch facts dst p) as [st|] eqn:Hp; [|discriminate].
     destruct (pipe_sound _ _ _ _ _ _ Hp Hok) as [v [Hv _]]. rewrite Hv. simpl. eauto.
-  - intros p th el Hth Hel dst dot Hc Hok. simpl in *.
+  - intros p th el Hth Hel facts dst dot Hc Hok. simpl in *.
     destruct (ty_pipe sch facts dst p) as [st|] eqn:Hp; [|discriminate].
     destruct (pipe_sound _ _ _ _ _ _ Hp Hok) as [v [Hv Hokv]]. rewrite Hv. simpl.
     apply andb_prop in Hc. destruct Hc as [Hc Hc3]. apply andb_prop in Hc. destruct Hc as [Hc1 Hc2].
     destruct Hokv as [Hwv [Htv _]].
     destruct (truth_sound sch v (s_ty st) Hc1 Htv Hwv) as [b Hb]. rewrite Hb. simpl.
-    destruct b; eapply seq_sound; eauto.
-  - intros p body el Hbody Hel dst dot Hc Hok. simpl in *.
+    destruct b; [|eapply seq_sound; eauto].
+    eapply seq_sound; [exact Hth|exact Hc2|]. eapply guard_ok; eauto.
+  - intros p body el Hbody Hel facts dst dot Hc Hok. simpl in *.
     destruct (ty_pipe sch facts dst p) as [st|] eqn:Hp; [|discriminate].
     destruct (pipe_sound _ _ _ _ _ _ Hp Hok) as [v [Hv Hokv]]. rewrite Hv. simpl.
     destruct st as [t pa j]. destruct t; try discriminate.
@@ -514,7 +620,14 @@ Proof.
         eapply elem_sat; eauto. }
     destruct l as [|x0 l0]; [eapply seq_sound; eauto|].
     eapply loop_sound; eauto.
-  - intros w dst dot Hc. simpl in Hc. discriminate.
+  - intros p body el Hbody Hel facts dst dot Hc Hok. simpl in *.
+    destruct (ty_pipe sch facts dst p) as [st|] eqn:Hp; [|discriminate].
+    destruct (pipe_sound _ _ _ _ _ _ Hp Hok) as [v [Hv Hokv]]. rewrite Hv. simpl.
+    apply andb_prop in Hc. destruct Hc as [Hc Hc3]. apply andb_prop in Hc. destruct Hc as [Hc1 Hc2].
+    destruct (truth_sound sch v (s_ty st) Hc1 (proj1 (proj2 Hokv)) (proj1 Hokv)) as [b Hb]. rewrite Hb. simpl.
+    destruct b; [|eapply seq_sound; eauto].
+    eapply seq_sound; [exact Hbody|exact Hc2|]. apply with_ok; assumption.
+  - intros w facts dst dot Hc. simpl in Hc. discriminate.
 Qed.
 
 (* ---- the theorem --------------------------------------------------------------------------- *)
@@ -525,7 +638,7 @@ Theorem typecheck_sound : forall sch t facts,
 Proof.
   intros sch t facts Htc d [Hw Ht] Hs.
   unfold exec, exec_list. unfold typecheck, check_list in Htc.
-  eapply seq_sound; eauto.
+  eapply seq_sound; [|exact Htc|].
   - apply Forall_forall. intros n _. apply node_sound.
   - repeat split; simpl; auto.
     intros p Hp. inversion Hp; subst p. apply satisfies_sat; assumption.
